@@ -493,7 +493,7 @@ def carry_source(ctx):
 
 # --------------------------------------------------------------------------- MASK-AGEING-TWIN
 
-@rule('MASK-AGEING-TWIN', ['C11'], floor=1)
+@rule('MASK-AGEING-TWIN', ['C11', 'C07'], floor=1)
 def mask_ageing_twin(ctx):
     """The x86 BCJ filter remembers recent E8/E9 opcodes in `prev_mask` and ages that memory by the distance d to the
     previous opcode in two places: inside the scan loop (at the next opcode) and once more at the end of the call
